@@ -658,7 +658,23 @@ func setDiff(want, got map[string]string) string {
 		if g, ok := got[k]; !ok {
 			out = append(out, fmt.Sprintf("missing in secondary: %s {%s}", k, simkit.Trunc(want[k], 260)))
 		} else if g != want[k] {
-			out = append(out, fmt.Sprintf("differs: %s\n      primary   {%s}\n      secondary {%s}", k, simkit.Trunc(want[k], 400), simkit.Trunc(g, 400)))
+			w := want[k]
+			i := 0
+			for i < len(w) && i < len(g) && w[i] == g[i] {
+				i++
+			}
+			from := i - 160
+			if from < 0 {
+				from = 0
+			}
+			cut := func(x string) string {
+				to := i + 240
+				if to > len(x) {
+					to = len(x)
+				}
+				return x[from:to]
+			}
+			out = append(out, fmt.Sprintf("differs: %s (first difference at byte %d)\n      primary   {...%s...}\n      secondary {...%s...}", k, i, cut(w), cut(g)))
 		}
 	}
 	for _, k := range simkit.SortedKeys(got) {
